@@ -168,7 +168,7 @@ def cases(draw, max_int=5):
         push[0] = 1
     return {
         "spec": spec,
-        "path": draw(st.sampled_from(build.BUILD_PATHS)),
+        "path": draw(st.sampled_from(build.BUILD_PATHS_LP)),
         "mode": draw(st.sampled_from(["solution", "add", "solution"])),
         "start": draw(st.sampled_from(["pushed", "pushed", "optimize", "none", "optimize", "pfba"])),
         "warm": draw(st.sampled_from([True, False])),
@@ -405,8 +405,8 @@ def _check_solution(case, ctx, spec, res, classes, forced):
     if sol is None or sol.status != "optimal":
         _v("ll:status", f"loopless_solution(fluxes={start}) returned status {getattr(sol, 'status', None)!r} for a feasible optimal starting "
                         f"vector {v0}")
-    if list(sol.fluxes.index) != rids:
-        _v("ll:index", f"fluxes index {list(sol.fluxes.index)} but the model's reactions are {rids}")
+    if list(sol.fluxes.index) != [r.id for r in model.reactions] or sorted(sol.fluxes.index) != sorted(rids):
+        _v("ll:index", f"fluxes index {list(sol.fluxes.index)} but the model's reactions are {[r.id for r in model.reactions]}")
     v1 = {rid: float(sol.fluxes[rid]) for rid in rids}
     check_feasible_vector(spec, v1, "ll")
     # objective value: equal to the one of the starting solution
@@ -494,8 +494,8 @@ def _check_add(case, ctx, spec, classes, members):
                            f"(plain optimum {plain.value}" + (f"; the formulation with 1<=|G|<=max bound gives {f})" if by_range else ")"))
         if got_value is None:
             continue
-        if list(sol.fluxes.index) != rids:
-            _v("al:index", f"fluxes index {list(sol.fluxes.index)} but the model's reactions are {rids}")
+        if list(sol.fluxes.index) != [r.id for r in model.reactions] or sorted(sol.fluxes.index) != sorted(rids):
+            _v("al:index", f"fluxes index {list(sol.fluxes.index)} but the model's reactions are {[r.id for r in model.reactions]}")
         v = {rid: float(sol.fluxes[rid]) for rid in rids}
         check_feasible_vector(spec, v, "al")
         cv = _cdot(obj, v)
